@@ -14,8 +14,7 @@ MANIFEST = dict(
          "that is not a declared name and for non-string JSON / non-[]byte SQL input; decode(encode(c)) = c for every declared c. Tied to the code by "
          "running the rebuilt `shoot enum` with all 2^3 codec flag sets (+ -gorm against a stub module), compiling, and calling the real encoding/json, "
          "encoding.Text*, database/sql/driver and the shoot helpers on declared names, case variants, prefixed names, decimals, empty, near misses, "
-         "non-string JSON, non-[]byte SQL and a window of integers; IsEnum over all 10 integer types TV. IsEnum on an integer whose sign-reinterpreted bit "
-         "pattern is a declared value of the opposite sign is the remaining finding region.",
+         "non-string JSON, non-[]byte SQL and a window of integers; IsEnum over all 10 integer types TV.",
     note="Lean kernel + standard axioms; encoding/json string encode/decode and the SQL text transport are externals.",
     technique="Lean 4 proof (association-list lemmas over the sorted constant table) + differential correspondence on generated enums",
     design="5/C12")
